@@ -39,6 +39,8 @@ EXPLICIT_QUERIES = [
     '* | apache | count by status', '* | nginx | count', '* | k8singressnginx | sum(body_bytes_sent)',
     '"GET" OR (error AND NOT "x*y") a*b | count',
     '* | limit | limit -1 | limit 9223372036854775807 | limit -9223372036854775808',
+    # wide aggregate tables in the default output: cells are shortened with an ellipsis (also multi-byte text)
+    '* | json | count by s, k, t', '* | logfmt | count by msg, a', '* | parse "msg=*" as m | count by m',
 ]
 
 
@@ -66,6 +68,8 @@ def hostile_inputs(rng, quick):
     yield 'apache-ish', b'127.0.0.1 - frank [10/Oct/2000:13:55:36 -0700] "GET /apache_pb.gif HTTP/1.0" 200 2326\nbroken line "GET\n' * 50
     yield 'logfmt-ish', b'a=1 b="two words" c d=  e="unterminated\nlevel=info msg="x=y" =bad ==\n' * 50
     yield 'whitespace', b' \t \n\n   \n\t\n'
+    yield 'long multibyte values', (''.join(json.dumps({'s': ch * n, 'k': ch * (n // 2), 't': 'x'}, ensure_ascii=False) + '\n' for ch in '€é日😀' for n in (150, 239, 240, 241, 400))
+                                    + ''.join('msg=%s a=%s\n' % (ch * n, ch * 7) for ch in '€日' for n in (239, 300, 1000))).encode('utf8')
     yield 'unicode', 'ключ=значение 日本語=テキスト emoji=😀 "q" é́\n'.encode('utf8') * 20
 
 
